@@ -349,6 +349,9 @@ func (c *ctx) check(f *file, libpcapToo bool) {
 	// 2. every truncation offset: exactly the wholly contained packets, unaltered, then EOF / unexpected EOF
 	mode := 0
 	for cut := 0; cut < len(f.bytes); cut++ {
+		if len(f.bytes) > 20000 && cut > 64 && cut < len(f.bytes)-256 && cut%4099 != 0 {
+			continue // a file with a very long option string: the first and last bytes and a stride in between
+		}
 		atomic.AddInt64(&c.cuts, 1)
 		if f.kind == "pcapng" {
 			mode = cut % 5
@@ -434,7 +437,16 @@ func (c *ctx) libpcap(f *file) {
 
 // ---- spaces -----------------------------------------------------------------------
 
-func str(n int) string { return "abcdefgh"[:n] }
+func str(n int) string {
+	if n <= 8 {
+		return "abcdefgh"[:n]
+	}
+	b := make([]byte, n)
+	for i := range b {
+		b[i] = byte('a' + i%23)
+	}
+	return string(b)
+}
 
 func main() {
 	r := report.New("C14", "fault_enumeration")
@@ -540,6 +552,24 @@ func main() {
 			}
 			f, err := writeNg([]pcapgo.NgInterface{base}, s, one(field), fmt.Sprintf("section{hw %q os %q app %q comment %q}", s.Hardware, s.OS, s.Application, s.Comment))
 			add(f, err, true)
+		}
+	}
+	// F2b: very long option strings: the reader's 1024-byte scratch buffer boundary and the 16-bit
+	// option length limit (a section comment, an interface description, a packet comment)
+	for _, n := range []int{1023, 1024, 1025, 65531, 65532, 65533, 65534, 65535} {
+		for field := 0; field < 3; field++ {
+			in, sec := base, sbase
+			pk := one(field)
+			switch field {
+			case 0:
+				sec.Comment = str(n)
+			case 1:
+				in.Description = str(n)
+			case 2:
+				pk[0].opts = pcapgo.NgPacketOptions{Comments: []string{str(n)}}
+			}
+			f, err := writeNg([]pcapgo.NgInterface{in}, sec, pk, fmt.Sprintf("long option string: %d bytes in %s", n, [...]string{"the section comment", "the interface description", "a packet comment"}[field]))
+			add(f, err, n < 2000)
 		}
 	}
 	// F3: per-packet options, each dimension over its domain, and all pairs of (comments, hashes, verdicts)
